@@ -33,7 +33,7 @@ var propSpecs = []PropSpec{
 	},
 	{
 		ID:          "C03",
-		Rules:       []string{"C03.W", "C03.W2", "C03.R", "C03.LOOP", "C03.DEFER"},
+		Rules:       []string{"C03.W", "C03.W2", "C03.R", "C03.LOOP", "C03.DEFER", "C03.REPLACE"},
 		Explanation: "Decides the def-use coverage of the workflow AST: every scalar field (String/[]String/Bool/Int/Float/RawYAMLValue) of every node type reachable from Workflow is (W) assigned by a parser method, (W2) by exactly one key of its section switch, and (R) read by a function reachable from RuleExpression's visitor methods and handed to an argument that flows into NewExprLexer; (LOOP) loops handing elements to the scanner have no early exit.",
 		NotDecided:  "that the diagnostic is located at that scalar and is a syntax error (position arithmetic, see C07); value-dependent behaviour of the excluded positions; conditional (path-dependent) hand-over of a parsed value to its field",
 		Assumptions: commonAssumptions,
@@ -75,7 +75,7 @@ var propSpecs = []PropSpec{
 	},
 	{
 		ID:          "C16",
-		Rules:       []string{"C16.TAINT", "C16.FMT", "C16.FIELDS"},
+		Rules:       []string{"C16.TAINT", "C16.FMT", "C16.FIELDS", "C16.WIDTH"},
 		Explanation: "Decides the one-diagnostic-one-line clause structurally: (TAINT) at every site that builds a diagnostic message (all callers of the 16 message primitives), a demand-driven backward search through format verbs, string operations, parameters (to all callers), returns, fields (to all stores), containers, strings.Builder writes and error texts finds no unquoted path from a user-text source (YAML scalars and keys, tokens, metadata read from files, error text of cron/os calls that echo their input) - %q, strconv.Quote*, quotes*/sortedQuotes and a newline-replacing ReplaceAll cut the search; (FMT) every printf-like call has a constant format (forwarded format parameters are followed to all callers); (FIELDS) GetTemplateFields copies every field of Error to the same-named field.",
 		NotDecided:  "regex round trip through the problem matcher; caret placement; width computations; that the single-line output of shellcheck/pyflakes is single-line (assumption)",
 		Assumptions: append([]string{"messages of strconv, net/url, encoding/json, path.Match and text/scanner quote or do not echo their input; shellcheck/pyflakes messages are single-line"}, commonAssumptions...),
